@@ -388,7 +388,10 @@ def r3(R):
     fn = m.ifunc("labelimage.mergelast", keep=("outputpeaks",))  # extracted helpers (swap, close-peaks) read as if written here
     cfg = pyfacts.PyCFG(fn)
     swaps = [s for s in ast.walk(fn) if isinstance(s, ast.Assign) and isinstance(s.targets[0], ast.Tuple) and src(s.targets[0]) == "(self.lastbl, self.blim)"]
-    R.check(len(swaps) == 2 and all(src(s.value) == "(self.blim, self.lastbl)" for s in swaps), "C12.R3", LI, fn.lineno, "labelimage.mergelast", "image swap statements: %d" % len(swaps),
+    # how many swap statements there are is a matter of layout (one per branch, or one at the end); what matters is decided on
+    # the flow graph below: every path passes one, and none passes two
+    R.shape(len(swaps) >= 1, "C12.R3", LI, "labelimage.mergelast", "a swap  self.lastbl, self.blim = self.blim, self.lastbl")
+    R.check(all(src(s.value) == "(self.blim, self.lastbl)" for s in swaps), "C12.R3", LI, fn.lineno, "labelimage.mergelast", "image swap statements: %d" % len(swaps),
             "the current/previous label images are not exchanged")
     # each path to exit passes exactly one swap: swap nodes are on disjoint paths and one of them post-dominates entry-or-branch
     import networkx as nx
@@ -398,8 +401,10 @@ def r3(R):
         g.remove_node(n)
     R.check(not nx.has_path(g, cfg.entry.id, cfg.exit.id), "C12.R3", LI, fn.lineno, "labelimage.mergelast", "every path to the normal exit passes a swap",
             "a path through mergelast leaves the images unswapped: the next frame is merged against itself")
-    R.check(not nx.has_path(cfg.g, sn[0], sn[1]) and not nx.has_path(cfg.g, sn[1], sn[0]) if len(sn) == 2 else False, "C12.R3", LI, fn.lineno, "labelimage.mergelast", "no path passes two swaps",
-            "images swapped twice on one path")
+    twice = [(a_, b_) for a_ in sn for b_ in sn if a_ != b_ and nx.has_path(cfg.g, a_, b_)]
+    R.check(not twice, "C12.R3", LI, fn.lineno, "labelimage.mergelast", "no path passes two swaps",
+            "a path through mergelast swaps the label images twice, i.e. not at all")
+    pass  # (the two-statement form of this test is subsumed by the pairwise path test above)
     for tgt, vals in (("self.lastnp", {"self.npk"}), ("self.lastres", {"self.res", "self.res[:self.npk]", "None"})):
         asg = [s for s in ast.walk(fn) if isinstance(s, ast.Assign) and src(s.targets[0]) == tgt]
 
@@ -419,8 +424,12 @@ def r3(R):
                 "%s keeps the value of the frame before last on some path" % tgt)
     ov = [c for c in ast.walk(fn) if isinstance(c, ast.Call) and pyfacts.dotted(c.func) == "cImageD11.bloboverlaps"]
     R.shape(len(ov) == 1, "C12.R3", LI, "labelimage.mergelast", "the bloboverlaps call")
-    g_ = [(src(t), p) for t, p in cfg.guards(cfg.node_of(pyfacts.containing_stmt(ov[0])))]
-    R.check(("self.npk > 0 and self.lastnp > 0", True) in g_ or (("self.npk > 0", True) in g_ and ("self.lastnp > 0", True) in g_), "C12.R3", LI, ov[0].lineno, "labelimage.mergelast",
+    g_ = set()
+    for t, p in cfg.guards(cfg.node_of(pyfacts.containing_stmt(ov[0]))):
+        rt = pyfacts.resolved(fn, t, 2, keep=("self",))          # a named test ( havenew = self.npk > 0 ) reads as the test
+        for a_ in (rt.values if isinstance(rt, ast.BoolOp) and isinstance(rt.op, ast.And) and p else [rt]):
+            g_.add((src(a_).replace(" ", "").strip("()"), p))
+    R.check(("self.npk>0", True) in g_ and ("self.lastnp>0", True) in g_, "C12.R3", LI, ov[0].lineno, "labelimage.mergelast",
             "bloboverlaps guarded by both counts > 0", "bloboverlaps is called with an empty frame (results array is None)")
     args = [src(a) for a in ov[0].args]
     R.check(args[:6] == ["self.lastbl", "self.lastnp", "self.lastres", "self.blim", "self.npk", "self.res"], "C12.R3", LI, ov[0].lineno, "labelimage.mergelast",
